@@ -74,7 +74,7 @@ class Gen:
             self.features.add("dict-display")
             a, b = self.expr("int", depth - 1), self.expr("int", depth - 1)
             return self.pick(["kw(**{'a': %s, 'b': %s})", "len({'a': %s, 'k': %s})", "{'a': %s}['a'] + %s",
-                              "kw(**d0, b=%s) + %s"]) % (a, b)
+                              "kw(**d0, b=%s) + %s", "len({str(t9): t9 + %s for t9 in [1, %s]})"]) % (a, b)
         if k == 18:
             # starred items in list/tuple/set displays, ** in dict displays
             self.features.add("starred-display")
